@@ -71,6 +71,22 @@ type calcRes struct {
 	Prep    map[string]prepRes  `json:"prep"`
 	Voter   map[string]voterRes `json:"voter"`
 }
+type basePrep struct {
+	Known  bool   `json:"known"`
+	Status string `json:"status"`
+	Dlg    int64  `json:"dlg"`
+	Bnd    int64  `json:"bnd"`
+	Rate   int64  `json:"rate"`
+	PubKey bool   `json:"pubkey"`
+}
+type baseVoter struct {
+	D map[string]int64 `json:"d"`
+	B map[string]int64 `json:"b"`
+}
+type baseRec struct {
+	Prep  map[string]basePrep  `json:"prep"`
+	Voter map[string]baseVoter `json:"voter"`
+}
 type step struct {
 	Op   string           `json:"op"`
 	V    string           `json:"v,omitempty"`
@@ -79,7 +95,8 @@ type step struct {
 	A    int64            `json:"a,omitempty"`
 	S    string           `json:"s,omitempty"`
 	Off  int              `json:"off,omitempty"`
-	Rate map[string]int64 `json:"rate,omitempty"`
+	Term int              `json:"term,omitempty"`
+	Base *baseRec         `json:"base,omitempty"`
 	Res  *calcRes         `json:"res,omitempty"`
 }
 type scenario struct {
@@ -185,22 +202,25 @@ type obsA struct {
 	voter map[string]voterRes
 }
 
-func routeA(c *conc, base []vote, events []step, rates map[string]int64) (*obsA, *outcome) {
+func routeA(c *conc, br *baseRec, events []step) (*obsA, *outcome) {
+	var base []vote
+	for _, v := range c.voters {
+		for _, n := range c.preps {
+			if a := br.Voter[v].D[n]; a > 0 {
+				base = append(base, vote{v, "d", n, a, 0})
+			}
+			if a := br.Voter[v].B[n]; a > 0 {
+				base = append(base, vote{v, "b", n, a, 0})
+			}
+		}
+	}
 	cfg := c.cfg
 	logger := log.GlobalLogger()
 	pi := calculator.NewPRepInfo(c.br, cfg.Elected, cfg.T-1, logger)
-	dlg := map[string]int64{}
-	bnd := map[string]int64{}
-	for _, b := range base {
-		if b.ty == "d" {
-			dlg[b.p] += b.a
-		} else {
-			bnd[b.p] += b.a
+	for _, n := range c.preps {
+		if bp := br.Prep[n]; bp.Known {
+			pi.Add(c.prep[n], statusOf(bp.Status), c.amt(bp.Dlg), c.amt(bp.Bnd), icmodule.Rate(bp.Rate), bp.PubKey)
 		}
-	}
-	for i := 0; i < cfg.BaseCount; i++ {
-		n := c.preps[i]
-		pi.Add(c.prep[n], icmodule.ESEnable, c.amt(dlg[n]), c.amt(bnd[n]), icmodule.Rate(rates[n]), true)
 	}
 	pi.Sort()
 	pi.InitAccumulated()
@@ -282,16 +302,75 @@ func routeA(c *conc, base []vote, events []step, rates map[string]int64) (*obsA,
 }
 
 func statusOf(s string) icmodule.EnableStatus {
-	if s == "enable" {
+	switch s {
+	case "enable":
 		return icmodule.ESEnable
+	case "nextterm":
+		return icmodule.ESEnableAtNextTerm
 	}
 	return icmodule.ESDisableTemp
 }
 
-// routeE runs the real calculator end to end and returns the I-Score credited to every account
-func routeE(c *conc, base []vote, events []step, rates map[string]int64) (map[string]int64, int64, *outcome) {
+// chainE is the end-to-end route: a database with the reward snapshot that each term's calculation
+// (calculator.New -> iiss4Reward.Calculate) turns into the base of the next term
+type chainE struct {
+	c      *conc
+	dbase  db.Database
+	base   *icreward.Snapshot
+	height int64
+	prev   map[string]int64 // I-Score after the previous term
+}
+
+func newChainE(c *conc, br *baseRec) (*chainE, *outcome) {
+	e := &chainE{c: c, dbase: db.NewMapDB(), height: 1000, prev: map[string]int64{}}
+	rs := icreward.NewState(e.dbase, nil)
+	for _, n := range c.preps {
+		bp := br.Prep[n]
+		if !bp.Known {
+			continue
+		}
+		vd := icreward.NewVotedV2()
+		vd.SetStatus(statusOf(bp.Status))
+		vd.SetDelegated(c.amt(bp.Dlg))
+		vd.SetBonded(c.amt(bp.Bnd))
+		vd.SetCommissionRate(icmodule.Rate(bp.Rate))
+		if err := rs.SetVoted(c.prep[n], vd); err != nil {
+			return nil, machinery("%v", err)
+		}
+	}
+	for _, v := range c.voters {
+		d := icreward.NewDelegating()
+		b := icreward.NewBonding()
+		for _, n := range c.preps {
+			if a := br.Voter[v].D[n]; a > 0 {
+				d.Delegations = append(d.Delegations, icstate.NewDelegation(c.prep[n], c.amt(a)))
+			}
+			if a := br.Voter[v].B[n]; a > 0 {
+				b.Bonds = append(b.Bonds, icstate.NewBond(c.prep[n], c.amt(a)))
+			}
+		}
+		if !d.IsEmpty() {
+			if err := rs.SetDelegating(c.voter[v], d); err != nil {
+				return nil, machinery("%v", err)
+			}
+		}
+		if !b.IsEmpty() {
+			if err := rs.SetBonding(c.voter[v], b); err != nil {
+				return nil, machinery("%v", err)
+			}
+		}
+	}
+	e.base = rs.GetSnapshot()
+	if err := e.base.Flush(); err != nil {
+		return nil, machinery("%v", err)
+	}
+	return e, nil
+}
+
+// term runs one term's calculation and returns the I-Score credited to every account in this term
+func (e *chainE) term(events []step) (map[string]int64, int64, *outcome) {
+	c := e.c
 	cfg := c.cfg
-	dbase := db.NewMapDB()
 	// reward fund: Iglobal and allocation such that Iglobal*Iprep = RewardP and Iglobal*Iwage = RewardW
 	g := gcd(cfg.RewardP, cfg.RewardW)
 	if g == 0 {
@@ -310,23 +389,24 @@ func routeE(c *conc, base []vote, events []step, rates map[string]int64) (map[st
 		icstate.KeyIrelay: 0}); err != nil {
 		return nil, 0, machinery("%v", err)
 	}
-	startHeight := int64(1000)
-	back := icstage.NewState(dbase)
+	startHeight := e.height
+	e.height += int64(cfg.T)
+	back := icstage.NewState(e.dbase)
 	if err := back.AddGlobalV3(startHeight, icmodule.LatestRevision, cfg.T-1, cfg.Elected, c.br, rf, c.amt(cfg.MinBond)); err != nil {
 		return nil, 0, machinery("%v", err)
 	}
-	for _, e := range events {
+	for _, ev := range events {
 		var err error
-		switch e.Op {
+		switch ev.Op {
 		case "vote":
-			votes := icstage.VoteList{icstage.NewVote(c.prep[e.P], c.amt(e.A))}
-			if e.Ty == "b" {
-				_, _, err = back.AddEventBond(e.Off, c.voter[e.V], votes)
+			votes := icstage.VoteList{icstage.NewVote(c.prep[ev.P], c.amt(ev.A))}
+			if ev.Ty == "b" {
+				_, _, err = back.AddEventBond(ev.Off, c.voter[ev.V], votes)
 			} else {
-				_, _, err = back.AddEventDelegation(e.Off, c.voter[e.V], votes)
+				_, _, err = back.AddEventDelegation(ev.Off, c.voter[ev.V], votes)
 			}
 		case "status":
-			_, err = back.AddEventEnable(e.Off, c.prep[e.P], statusOf(e.S))
+			_, err = back.AddEventEnable(ev.Off, c.prep[ev.P], statusOf(ev.S))
 		}
 		if err != nil {
 			return nil, 0, machinery("adding event: %v", err)
@@ -336,70 +416,30 @@ func routeE(c *conc, base []vote, events []step, rates map[string]int64) (map[st
 	if err := bss.Flush(); err != nil {
 		return nil, 0, machinery("%v", err)
 	}
-	rs := icreward.NewState(dbase, nil)
-	dlg := map[string]int64{}
-	bnd := map[string]int64{}
-	dOf := map[string]*icreward.Delegating{}
-	bOf := map[string]*icreward.Bonding{}
-	for _, bv := range base {
-		if bv.ty == "d" {
-			dlg[bv.p] += bv.a
-			if dOf[bv.v] == nil {
-				dOf[bv.v] = icreward.NewDelegating()
-			}
-			dOf[bv.v].Delegations = append(dOf[bv.v].Delegations, icstate.NewDelegation(c.prep[bv.p], c.amt(bv.a)))
-		} else {
-			bnd[bv.p] += bv.a
-			if bOf[bv.v] == nil {
-				bOf[bv.v] = icreward.NewBonding()
-			}
-			bOf[bv.v].Bonds = append(bOf[bv.v].Bonds, icstate.NewBond(c.prep[bv.p], c.amt(bv.a)))
-		}
-	}
-	for i := 0; i < cfg.BaseCount; i++ {
-		n := c.preps[i]
-		vd := icreward.NewVotedV2()
-		vd.SetStatus(icmodule.ESEnable)
-		vd.SetDelegated(c.amt(dlg[n]))
-		vd.SetBonded(c.amt(bnd[n]))
-		vd.SetCommissionRate(icmodule.Rate(rates[n]))
-		if err := rs.SetVoted(c.prep[n], vd); err != nil {
-			return nil, 0, machinery("%v", err)
-		}
-	}
-	for v, d := range dOf {
-		if err := rs.SetDelegating(c.voter[v], d); err != nil {
-			return nil, 0, machinery("%v", err)
-		}
-	}
-	for v, b := range bOf {
-		if err := rs.SetBonding(c.voter[v], b); err != nil {
-			return nil, 0, machinery("%v", err)
-		}
-	}
-	rss := rs.GetSnapshot()
-	if err := rss.Flush(); err != nil {
-		return nil, 0, machinery("%v", err)
-	}
-	calc := calculator.New(dbase, bss, rss, log.GlobalLogger())
+	calc := calculator.New(e.dbase, bss, e.base, log.GlobalLogger())
 	if calc == nil {
 		return nil, 0, machinery("calculator.New returned nil")
 	}
 	if err := calc.WaitResult(startHeight); err != nil {
 		return nil, 0, diverge("calculation failed: %v", err)
 	}
-	res := calc.Result().NewState()
+	result := calc.Result()
+	if err := result.Flush(); err != nil {
+		return nil, 0, machinery("%v", err)
+	}
+	res := result.NewState()
 	out := map[string]int64{}
 	get := func(name string, a module.Address) *outcome {
 		is, err := res.GetIScore(a)
 		if err != nil {
 			return machinery("%v", err)
 		}
+		var v int64
 		if is != nil && is.Value() != nil {
-			out[name] = is.Value().Int64()
-		} else {
-			out[name] = 0
+			v = is.Value().Int64()
 		}
+		out[name] = v - e.prev[name]
+		e.prev[name] = v
 		return nil
 	}
 	for n, a := range c.prep {
@@ -412,7 +452,123 @@ func routeE(c *conc, base []vote, events []step, rates map[string]int64) (map[st
 			return nil, 0, o
 		}
 	}
+	e.base = result // the calculated snapshot is the base of the next term
 	return out, calc.TotalReward().Int64(), nil
+}
+
+// budgetIISS3 runs the first term of the scenario through the IISS 3.x calculator (GlobalV2 ->
+// iiss3Reward.Calculate: voted reward by bonded delegation, voting reward by voting amount) with
+// Iglobal*Iprep = Iglobal*Ivoter = RewardP and checks the same budget invariant on the real output: the
+// I-Score credited in the term does not exceed the P-Rep fund plus the voter fund of the term.
+func budgetIISS3(c *conc, br *baseRec, events []step, want *calcRes) *outcome {
+	cfg := c.cfg
+	dbase := db.NewMapDB()
+	rs := icreward.NewState(dbase, nil)
+	for _, n := range c.preps {
+		bp := br.Prep[n]
+		if !bp.Known {
+			continue
+		}
+		vd := icreward.NewVoted()
+		vd.SetStatus(statusOf(bp.Status))
+		vd.SetDelegated(c.amt(bp.Dlg))
+		vd.SetBonded(c.amt(bp.Bnd))
+		vd.UpdateBondedDelegation(c.br)
+		if err := rs.SetVoted(c.prep[n], vd); err != nil {
+			return machinery("%v", err)
+		}
+	}
+	for _, v := range c.voters {
+		d := icreward.NewDelegating()
+		b := icreward.NewBonding()
+		for _, n := range c.preps {
+			if a := br.Voter[v].D[n]; a > 0 {
+				d.Delegations = append(d.Delegations, icstate.NewDelegation(c.prep[n], c.amt(a)))
+			}
+			if a := br.Voter[v].B[n]; a > 0 {
+				b.Bonds = append(b.Bonds, icstate.NewBond(c.prep[n], c.amt(a)))
+			}
+		}
+		if !d.IsEmpty() {
+			if err := rs.SetDelegating(c.voter[v], d); err != nil {
+				return machinery("%v", err)
+			}
+		}
+		if !b.IsEmpty() {
+			if err := rs.SetBonding(c.voter[v], b); err != nil {
+				return machinery("%v", err)
+			}
+		}
+	}
+	base := rs.GetSnapshot()
+	if err := base.Flush(); err != nil {
+		return machinery("%v", err)
+	}
+	back := icstage.NewState(dbase)
+	startHeight := int64(1000)
+	// Iglobal = 4*RewardP, Iprep = Ivoter = 25%
+	if err := back.AddGlobalV2(icmodule.RevisionICON2R3, startHeight, cfg.T-1, big.NewInt(4*cfg.RewardP),
+		icmodule.ToRate(25), icmodule.ToRate(25), icmodule.ToRate(0), icmodule.ToRate(0), cfg.Elected, c.br); err != nil {
+		return machinery("%v", err)
+	}
+	for _, ev := range events {
+		var err error
+		switch ev.Op {
+		case "vote":
+			votes := icstage.VoteList{icstage.NewVote(c.prep[ev.P], c.amt(ev.A))}
+			if ev.Ty == "b" {
+				_, _, err = back.AddEventBond(ev.Off, c.voter[ev.V], votes)
+			} else {
+				_, _, err = back.AddEventDelegation(ev.Off, c.voter[ev.V], votes)
+			}
+		case "status":
+			_, err = back.AddEventEnable(ev.Off, c.prep[ev.P], statusOf(ev.S))
+		}
+		if err != nil {
+			return machinery("adding event: %v", err)
+		}
+	}
+	bss := back.GetSnapshot()
+	if err := bss.Flush(); err != nil {
+		return machinery("%v", err)
+	}
+	calc := calculator.New(dbase, bss, base, log.GlobalLogger())
+	if calc == nil {
+		return machinery("calculator.New returned nil")
+	}
+	if err := calc.WaitResult(startHeight); err != nil {
+		return diverge("IISS3 calculation failed: %v", err)
+	}
+	res := calc.Result().NewState()
+	var sum int64
+	for _, a := range c.prep {
+		if is, err := res.GetIScore(a); err == nil && is != nil && is.Value() != nil {
+			sum += is.Value().Int64()
+		}
+	}
+	for _, a := range c.voter {
+		if is, err := res.GetIScore(a); err == nil && is != nil && is.Value() != nil {
+			sum += is.Value().Int64()
+		}
+	}
+	// P-Rep fund + voter fund of the term; the spec's treward is floor(RewardP*T*1000/MonthBlock)
+	budget := 2 * (want.TReward + 1)
+	hasStatus := false
+	for _, ev := range events {
+		if ev.Op == "status" {
+			hasStatus = true
+		}
+	}
+	if hasStatus {
+		// enable/disable events inside an IISS 3.x term (turn-skipping penalty, unregistration) change which votes count
+		// towards the maximal total voting amount; the spec does not model that accounting: not judged
+		return nil
+	}
+	if sum > budget || calc.TotalReward().Int64() != sum {
+		return viol("budget:total:iiss3", "IISS3 calculator credited %d I-Score (statistics: %v); the term's P-Rep and voter funds are %d",
+			sum, calc.TotalReward(), budget)
+	}
+	return nil
 }
 
 func runScenario(sc scenario, rnd *rand.Rand) (*outcome, map[string]interface{}) {
@@ -422,47 +578,88 @@ func runScenario(sc scenario, rnd *rand.Rand) (*outcome, map[string]interface{})
 		return machinery("%v", err), info
 	}
 	info["scale"] = c.scale.String()
-	var base []vote
+	var chain *chainE
+	var base *baseRec
 	var events []step
-	var rates map[string]int64
-	var want *calcRes
+	term := 0
 	for _, s := range sc.Steps {
 		switch s.Op {
-		case "base":
-			base = append(base, vote{s.V, s.Ty, s.P, s.A, 0})
 		case "start":
-			rates = s.Rate
+			base = s.Base
+			events = nil
+			term = s.Term
+			if chain == nil {
+				var o *outcome
+				if chain, o = newChainE(c, base); o != nil {
+					return o, info
+				}
+			}
 		case "vote", "status":
 			events = append(events, s)
 		case "calc":
-			want = s.Res
+			if base == nil || s.Res == nil {
+				return machinery("calc step without start"), info
+			}
+			if o := checkTerm(c, chain, base, events, s.Res, term, info); o != nil {
+				return o, info
+			}
+			iiss3ok := term <= 1
+			for _, ev := range events {
+				if ev.Op == "status" && ev.S == "nextterm" { // "enable at next term" exists from IISS 4 on only
+					iiss3ok = false
+				}
+			}
+			if iiss3ok {
+				if o := budgetIISS3(c, base, events, s.Res); o != nil {
+					return o, info
+				}
+			}
+			base = nil
 		}
 	}
-	if want == nil || rates == nil {
+	if chain == nil {
 		return machinery("scenario without start/calc step"), info
+	}
+	return nil, info
+}
+
+// checkTerm runs one term through both routes, evaluates C35 on the real outputs and compares them with the prediction
+func checkTerm(c *conc, chain *chainE, base *baseRec, events []step, want *calcRes, term int, info map[string]interface{}) *outcome {
+	tag := fmt.Sprintf("term %d: ", term)
+	fail := func(o *outcome) *outcome {
+		o.what = tag + o.what
+		return o
 	}
 	// route A twice: with the wage fund and without it, the difference of GetReward() is the wage
 	cfgNoWage := *c
 	cfgNoWage.cfg.RewardW = 0
-	oNo, o := routeA(&cfgNoWage, base, events, rates)
+	oNo, o := routeA(&cfgNoWage, base, events)
 	if o != nil {
-		return o, info
+		return fail(o)
 	}
-	oA, o := routeA(c, base, events, rates)
+	oA, o := routeA(c, base, events)
 	if o != nil {
-		return o, info
+		return fail(o)
 	}
 	for n, p := range oA.prep {
 		p.Wage = p.Reward - oNo.prep[n].Reward
 		p.Commission = oNo.prep[n].Reward
 		oA.prep[n] = p
 	}
-	iscore, total, o := routeE(c, base, events, rates)
+	iscore, total, o := chain.term(events)
 	if o != nil {
-		return o, info
+		return fail(o)
 	}
-	info["real"] = map[string]interface{}{"prep": oA.prep, "voter": oA.voter, "iscore": iscore, "total": total}
+	info[fmt.Sprintf("real_term%d", term)] = map[string]interface{}{"prep": oA.prep, "voter": oA.voter, "iscore": iscore, "total": total}
+	if o := judge(c, oA, iscore, total, want); o != nil {
+		return fail(o)
+	}
+	return nil
+}
 
+func judge(c *conc, oA *obsA, iscore map[string]int64, total int64, want *calcRes) *outcome {
+	info := map[string]interface{}{}
+	_ = info
 	// ---- C35 on the real outputs (the term's funds are the spec's treward / minwage)
 	var sumPrep, sumWage, sumAll int64
 	for _, n := range c.preps {
@@ -470,14 +667,14 @@ func runScenario(sc scenario, rnd *rand.Rand) (*outcome, map[string]interface{})
 		sumPrep += p.Commission + p.VReward
 		sumWage += p.Wage
 		if p.Commission < 0 || p.VReward < 0 || p.Wage < 0 {
-			return viol("budget:negative", "P-Rep %s: commission %d, voter reward %d, wage %d", n, p.Commission, p.VReward, p.Wage), info
+			return viol("budget:negative", "P-Rep %s: commission %d, voter reward %d, wage %d", n, p.Commission, p.VReward, p.Wage)
 		}
 	}
 	if sumPrep > want.TReward {
-		return viol("budget:prep", "commissions + voter rewards of all P-Reps = %d I-Score exceed the term's P-Rep fund %d", sumPrep, want.TReward), info
+		return viol("budget:prep", "commissions + voter rewards of all P-Reps = %d I-Score exceed the term's P-Rep fund %d", sumPrep, want.TReward)
 	}
 	if sumWage > want.MinWage {
-		return viol("budget:wage", "wages of all P-Reps = %d I-Score exceed the term's wage fund %d", sumWage, want.MinWage), info
+		return viol("budget:wage", "wages of all P-Reps = %d I-Score exceed the term's wage fund %d", sumWage, want.MinWage)
 	}
 	for _, n := range c.preps {
 		p := oA.prep[n]
@@ -485,10 +682,10 @@ func runScenario(sc scenario, rnd *rand.Rand) (*outcome, map[string]interface{})
 		for _, v := range c.voters {
 			sh := oA.voter[v].Share[n]
 			s += sh
-			av := want.Voter[v].AV[n]       // accumulated votes: block-by-block sum of the spec
-			accv := want.Prep[n].AccV       // accumulated votes of the P-Rep (spec)
+			av := want.Voter[v].AV[n] // accumulated votes: block-by-block sum of the spec
+			accv := want.Prep[n].AccV // accumulated votes of the P-Rep (spec)
 			if sh < 0 {
-				return viol("share:negative", "voter %s gets %d from P-Rep %s", v, sh, n), info
+				return viol("share:negative", "voter %s gets %d from P-Rep %s", v, sh, n)
 			}
 			if p.Rewardable && av > 0 && accv > 0 {
 				// share = floor(av * voterReward / accv)
@@ -497,30 +694,30 @@ func runScenario(sc scenario, rnd *rand.Rand) (*outcome, map[string]interface{})
 				rhs := new(big.Int).Mul(big.NewInt(sh+1), big.NewInt(accv))
 				if lhs.Cmp(mid) > 0 || mid.Cmp(rhs) >= 0 {
 					return viol("share:not-proportional", "voter %s gets %d I-Score from P-Rep %s; its proportional share of the voter reward %d "+
-						"for accumulated votes %d of %d is %d", v, sh, n, p.VReward, av, accv, new(big.Int).Div(mid, big.NewInt(accv))), info
+						"for accumulated votes %d of %d is %d", v, sh, n, p.VReward, av, accv, new(big.Int).Div(mid, big.NewInt(accv)))
 				}
 			} else if sh != 0 && !(p.Rewardable && av > 0) {
-				return viol("share:unearned", "voter %s gets %d I-Score from P-Rep %s without accumulated votes for a rewarded P-Rep", v, sh, n), info
+				return viol("share:unearned", "voter %s gets %d I-Score from P-Rep %s without accumulated votes for a rewarded P-Rep", v, sh, n)
 			}
 		}
 		if s > p.VReward {
-			return viol("budget:voter", "voters of P-Rep %s get %d I-Score in total, more than its voter reward %d", n, s, p.VReward), info
+			return viol("budget:voter", "voters of P-Rep %s get %d I-Score in total, more than its voter reward %d", n, s, p.VReward)
 		}
 	}
 	for _, x := range iscore {
 		sumAll += x
 	}
 	if sumAll > want.TReward+want.MinWage {
-		return viol("budget:total", "calculator credited %d I-Score in total, the term's funds are %d + %d", sumAll, want.TReward, want.MinWage), info
+		return viol("budget:total", "calculator credited %d I-Score in total, the term's funds are %d + %d", sumAll, want.TReward, want.MinWage)
 	}
 	if sumAll != total {
-		return viol("budget:stats", "calculator statistics report a total of %d I-Score but %d were credited", total, sumAll), info
+		return viol("budget:stats", "calculator statistics report a total of %d I-Score but %d were credited", total, sumAll)
 	}
 	// the calculator (iiss4.go) must credit every voter exactly the proportional shares established above
 	for _, v := range c.voters {
 		if iscore[v] != oA.voter[v].Reward {
 			return viol("share:not-proportional:calculator", "the calculator credits voter %s %d I-Score; its proportional shares of the "+
-				"P-Reps' voter rewards sum to %d", v, iscore[v], oA.voter[v].Reward), info
+				"P-Reps' voter rewards sum to %d", v, iscore[v], oA.voter[v].Reward)
 		}
 	}
 	// ---- exact comparison with the prediction (diagnostic)
@@ -556,9 +753,9 @@ func runScenario(sc scenario, rnd *rand.Rand) (*outcome, map[string]interface{})
 		}
 	}
 	if len(diffs) > 0 {
-		return diverge("%s", strings.Join(diffs, "; ")), info
+		return diverge("%s", strings.Join(diffs, "; "))
 	}
-	return nil, info
+	return nil
 }
 
 func sig(sc scenario) string {
@@ -570,7 +767,14 @@ func sig(sc scenario) string {
 		case "status":
 			fmt.Fprintf(&sb, "s%s%s@%d;", s.P, s.S, s.Off)
 		case "start":
-			fmt.Fprintf(&sb, "r%v;", s.Rate)
+			if s.Base != nil {
+				for _, n := range []string{"p1", "p2", "p3", "p4", "p5", "p6"} {
+					if bp, ok := s.Base.Prep[n]; ok {
+						fmt.Fprintf(&sb, "r%d", bp.Rate)
+					}
+				}
+			}
+			sb.WriteString("|")
 		}
 	}
 	return sb.String()
